@@ -52,7 +52,7 @@ func (g *Gen) ClosureProgram() *Chunk {
 
 	nscen := 2 + g.R.Intn(5)
 	for s := 0; s < nscen; s++ {
-		kind := g.R.Intn(12)
+		kind := g.R.Intn(14)
 		g.cover("exit:%d", kind)
 		v := g.fresh("x")
 		getter := func(name string) Expr { return Fn(nil, false, Blk(Return(N(name)))) }
@@ -68,6 +68,34 @@ func (g *Gen) ClosureProgram() *Chunk {
 				g.cover("exit:break")
 			}
 			b.Stmts = append(b.Stmts, &SNumFor{Var: iv, Start: Num(1), Limit: Num(float64(2 + g.R.Intn(3))), Body: body})
+		case 12: // captures in descending declaration order inside a fresh coroutine (no lower open upvalue on that thread)
+			a, bb := g.fresh("a"), g.fresh("b")
+			body := Blk(
+				&SLocal{Names: []string{a, bb}, Exprs: []Expr{Num(float64(g.R.Intn(9))), Num(float64(10 + g.R.Intn(9)))}},
+				push(getter(bb)), // the later-declared local first
+				push(bump(a)),
+				push(bump(bb)),
+				push(getter(a)),
+			)
+			if g.R.Intn(2) == 0 {
+				body.Stmts = append(body.Stmts, &SCall{Call: Call(Dot(N("coroutine"), "yield"), Num(1))})
+			}
+			b.Stmts = append(b.Stmts, &SCall{Call: Call(Call(Dot(N("coroutine"), "wrap"), Fn(nil, false, body)))})
+			g.cover("exit:descending-capture-in-coroutine")
+		case 13: // the same function expression evaluated twice: two closures, two environments
+			env := g.fresh("env")
+			gname := g.fresh("GV")
+			fl := g.fresh("fl")
+			iv := g.fresh("i")
+			b.Stmts = append(b.Stmts,
+				Assign1(N(gname), Str("global")),
+				Local1(env, &ETable{Items: []TItem{{Kind: TName, Name: gname, Val: Str("sandbox")}}}),
+				Local1(fl, &ETable{}),
+				&SNumFor{Var: iv, Start: Num(1), Limit: Num(3), Body: Blk(Assign1(Idx(N(fl), N(iv)), Fn(nil, false, Blk(Return(N(gname))))))},
+				&SCall{Call: CallN("setfenv", Idx(N(fl), Num(2)), N(env))},
+				CallSN("emit", Str("twice"), Call(Idx(N(fl), Num(1))), Call(Idx(N(fl), Num(2))), Call(Idx(N(fl), Num(3))),
+					Bin("==", Idx(N(fl), Num(1)), Idx(N(fl), Num(2))), Bin("==", CallN("getfenv", Idx(N(fl), Num(3))), CallN("getfenv", Num(1)))))
+			g.cover("exit:fenv-per-closure")
 		case 11: // break (and goto) out of a nested block that itself declares the captured local
 			c := g.fresh("c")
 			inner := Blk(Local1(v, Bin("+", N(c), Num(300))), push(bump(v)), push(getter(v)))
@@ -154,9 +182,15 @@ func (g *Gen) ClosureProgram() *Chunk {
 			if kind == 6 {
 				b.Stmts = append(b.Stmts, CallSN("emit", Str("pcall"), &EParen{X: CallN("pcall", Fn(nil, false, body))}))
 			} else {
+				hbody := Blk(CallSN("emit", Str("handler"), CallN("type", N("e"))), Return(Str("handled")))
+				if g.R.Intn(3) == 0 {
+					// the message handler fails too
+					hbody = Blk(CallSN("emit", Str("handler"), CallN("type", N("e"))), CallSN("error", Str("Ehandler")))
+					g.cover("exit:xpcall-failing-handler")
+				}
 				b.Stmts = append(b.Stmts,
-					&SLocalFunc{Name: h, F: &Func{Params: []string{"e"}, Body: Blk(CallSN("emit", Str("handler"), CallN("type", N("e"))), Return(Str("handled")))}},
-					CallSN("emit", Str("xpcall"), CallN("xpcall", Fn(nil, false, body), N(h))))
+					&SLocalFunc{Name: h, F: &Func{Params: []string{"e"}, Body: hbody}},
+					CallSN("emit", Str("xpcall"), &EParen{X: CallN("xpcall", Fn(nil, false, body), N(h))}))
 				g.cover("exit:xpcall")
 			}
 		case 8: // coroutine: closures created inside, used while suspended and after death
